@@ -332,6 +332,25 @@ def check_proofs(prop_id, props_targets, theorems_expected=None):
     }
 
 
+def coqchk(props_targets, timeout=2400):
+    """Independent re-check of the compiled proofs (thorough tier): `coqchk -o -silent` on the
+    property's Props modules. Returns dict(ok, axioms, log)."""
+    mods = ["OCV." + t[len("theories/"):-3].replace("/", ".") for t in props_targets]
+    with Lock("coq"):
+        p = subprocess.run(["timeout", str(timeout), "coqchk", "-o", "-silent", "-Q", "theories", "OCV"] + mods,
+                           cwd=COQ, capture_output=True, text=True)
+    out = p.stdout + p.stderr
+    axioms = []
+    m = re.search(r"\* Axioms:(.*?)\n\s*\n\* Constants/Inductives relying on type-in-type:(.*?)\n\s*\n\* Constants/Inductives relying on unsafe \(co\)fixpoints:(.*?)\n\s*\n\* Inductives whose positivity is assumed:(.*?)\n", out, re.S)
+    clean = False
+    if m:
+        ax = m.group(1).strip()
+        axioms = [] if ax == "<none>" else [a.strip() for a in ax.split("\n") if a.strip()]
+        clean = all(g.strip() == "<none>" for g in (m.group(2), m.group(3), m.group(4)))
+    bad = [a for a in axioms if a not in AXIOM_ALLOW and a.split(".")[-1] not in AXIOM_ALLOW]
+    return {"ok": p.returncode == 0 and m is not None and clean and not bad, "axioms": axioms, "log": tail(out, 25)}
+
+
 def tail(s, n):
     return "\n".join(s.splitlines()[-n:])
 
